@@ -107,12 +107,13 @@ type scfg struct {
 	Senders    []int // datagrams (one event each) per sender thread
 	Cloud      bool
 	Waiter     bool
+	HTTPFwd    bool `json:",omitempty"` // instead: one event over HTTP into an instance in forwarder mode (httpfwd.go)
 	Cancel     bool `json:",omitempty"` // one more event arrives the way an HTTP request delivers it - with its own context - and that context is cancelled at any point (the client went away)
-	Timeouts   int `json:",omitempty"` // the first SendEvent calls fail with context.DeadlineExceeded (what an HTTP backend returns when its retries run into the per-event deadline)
+	Timeouts   int  `json:",omitempty"` // the first SendEvent calls fail with context.DeadlineExceeded (what an HTTP backend returns when its retries run into the per-event deadline)
 }
 
 func (c scfg) String() string {
-	return fmt.Sprintf("B%d-c%d-s%v-cloud%v-w%v", c.Backends, c.Concurrent, c.Senders, c.Cloud, c.Waiter) + map[bool]string{true: fmt.Sprintf("-timeouts%d", c.Timeouts)}[c.Timeouts > 0] + map[bool]string{true: "-cancel"}[c.Cancel]
+	return fmt.Sprintf("B%d-c%d-s%v-cloud%v-w%v", c.Backends, c.Concurrent, c.Senders, c.Cloud, c.Waiter) + map[bool]string{true: fmt.Sprintf("-timeouts%d", c.Timeouts)}[c.Timeouts > 0] + map[bool]string{true: "-cancel"}[c.Cancel] + map[bool]string{true: "-http-into-forwarder"}[c.HTTPFwd]
 }
 
 type run struct {
@@ -145,6 +146,9 @@ func eventLine(id int) string {
 }
 
 func sbody(c scfg, r *run) func(*vsched.Exec) {
+	if c.HTTPFwd {
+		return httpFwdBody(r)
+	}
 	return func(x *vsched.Exec) {
 		*r = run{tableObj: new(int), logObj: new(int), timeoutsLeft: c.Timeouts}
 		ctx, _ := fx.NewClock(context.Background())
@@ -280,6 +284,9 @@ func sameEvent(g, w gostatsd.Event) string {
 }
 
 func scheck(c scfg, r *run, outcomes map[string]struct{}) func(*vsched.Exec, vsched.Outcome) (string, string) {
+	if c.HTTPFwd {
+		return httpFwdCheck(r)
+	}
 	return func(x *vsched.Exec, o vsched.Outcome) (string, string) {
 		if o.Kind != "ok" {
 			return o.Kind, o.Kind + ": " + o.Detail
@@ -336,14 +343,15 @@ func scheck(c scfg, r *run, outcomes map[string]struct{}) func(*vsched.Exec, vsc
 
 func sconfigs() []scfg {
 	cs := []scfg{
-		{1, 1, []int{1, 1}, false, true, false, 0}, {2, 1, []int{1}, false, true, false, 0}, {2, 2, []int{1}, true, true, false, 0}, {1, 1, []int{2}, true, true, false, 0}, {0, 1, []int{1}, false, true, false, 0},
+		{Backends: 1, Concurrent: 1, Senders: []int{1, 1}, Waiter: true}, {Backends: 2, Concurrent: 1, Senders: []int{1}, Waiter: true}, {Backends: 2, Concurrent: 2, Senders: []int{1}, Cloud: true, Waiter: true}, {Backends: 1, Concurrent: 1, Senders: []int{2}, Cloud: true, Waiter: true}, {Backends: 0, Concurrent: 1, Senders: []int{1}, Waiter: true},
 		// as many failed sends as there are event slots, then one more event
-		{1, 1, []int{2}, false, true, false, 1}, {1, 2, []int{3}, false, false, false, 2},
+		{Backends: 1, Concurrent: 1, Senders: []int{2}, Waiter: true, Timeouts: 1}, {Backends: 1, Concurrent: 2, Senders: []int{3}, Timeouts: 2},
 		// an event whose request context ends while it waits for a free event slot (or at any other point)
+		{Backends: 1, Concurrent: 1, HTTPFwd: true},
 		{Backends: 1, Concurrent: 1, Senders: []int{1}, Waiter: true, Cancel: true}, {Backends: 2, Concurrent: 1, Senders: []int{}, Waiter: true, Cancel: true},
 	}
 	if vrt.Thorough() {
-		cs = append(cs, scfg{2, 1, []int{2}, false, true, false, 0}, scfg{2, 2, []int{1, 1}, true, true, false, 0}, scfg{2, 1, []int{2, 1}, false, true, false, 0}, scfg{1, 2, []int{2, 2}, true, false, false, 0},
+		cs = append(cs, scfg{Backends: 2, Concurrent: 1, Senders: []int{2}, Waiter: true}, scfg{Backends: 2, Concurrent: 2, Senders: []int{1, 1}, Cloud: true, Waiter: true}, scfg{Backends: 2, Concurrent: 1, Senders: []int{2, 1}, Waiter: true}, scfg{Backends: 1, Concurrent: 2, Senders: []int{2, 2}, Cloud: true},
 			scfg{Backends: 2, Concurrent: 1, Senders: []int{1}, Waiter: true, Cancel: true}, scfg{Backends: 1, Concurrent: 2, Senders: []int{2}, Cloud: true, Waiter: true, Cancel: true})
 	}
 	return cs
@@ -367,6 +375,9 @@ type bridge struct {
 }
 
 func (b *bridge) RoundTrip(req *http.Request) (*http.Response, error) {
+	if err := req.Context().Err(); err != nil {
+		return nil, err // a real transport does not send a request whose context is already done
+	}
 	w := httptest.NewRecorder()
 	b.router.ServeHTTP(w, req)
 	b.codes = append(b.codes, w.Code)
@@ -382,11 +393,13 @@ func enumLine(line string) {
 		return
 	}
 	accepted[line] = struct{}{}
-	for mode := 0; mode < 3; mode++ {
+	for mode := 0; mode < 4; mode++ {
 		res.Evaluations++
 		r := &run{tableObj: new(int), logObj: new(int)}
 		var got []gostatsd.Event
 		var problem string
+		var before, after time.Time
+		httpNoDate := false
 		o := vsched.RunOnce(func() {
 			ctx, _ := fx.NewClock(context.Background())
 			w := vsched.EnvGet("clock").(clock.Clock)
@@ -399,8 +412,8 @@ func enumLine(line string) {
 			chain := statsd.NewTagHandler(bh, append(gostatsd.Tags{}, static...), metricFilters)
 			var head gostatsd.PipelineHandler = chain
 			var br *bridge
-			if mode == 2 {
-				// forwarder mode: parser -> tag stage -> forwarder -> upstream ingestion -> upstream chain
+			if mode == 2 || mode == 3 {
+				// forwarder mode: parser (2) or HTTP ingestion (3) -> tag stage -> forwarder -> upstream ingestion -> upstream chain
 				rt, err := fx.IngestionRouter(chain, "rx")
 				if err != nil {
 					problem = err.Error()
@@ -427,15 +440,17 @@ func enumLine(line string) {
 				vsched.GoNamed("parser", func() { p.Run(ctx) })
 				vsched.Send(in, []*statsd.Datagram{{IP: ip, Msg: []byte(line), Timestamp: 9, DoneFunc: func() {}}})
 				vsched.Send(in, []*statsd.Datagram(nil))
-			case 1:
-				// HTTP ingestion of the same event
+			case 1, 3:
+				// HTTP ingestion of the same event (3: on an instance that forwards it upstream)
 				rt, err := fx.IngestionRouter(head, "rx")
 				if err != nil {
 					problem = err.Error()
 					return
 				}
-				msg := &pb.EventV2{Title: w0.Title, Text: w0.Text, DateHappened: w0.DateHappened, Hostname: ip, AggregationKey: w0.AggregationKey, SourceTypeName: w0.SourceTypeName}
 				_, e := lineref.ParseEvent(line)
+				// the date travels as the sender gave it: absent (0) when the line has none - the receiving end then uses the receipt time
+				msg := &pb.EventV2{Title: w0.Title, Text: w0.Text, DateHappened: e.Date, Hostname: ip, AggregationKey: w0.AggregationKey, SourceTypeName: w0.SourceTypeName}
+				httpNoDate = e.Date == 0
 				msg.Tags = e.Tags
 				if w0.Priority == gostatsd.PriLow {
 					msg.Priority = pb.EventV2_Low
@@ -443,7 +458,12 @@ func enumLine(line string) {
 				msg.Type = map[gostatsd.AlertType]pb.EventV2_AlertType{gostatsd.AlertInfo: pb.EventV2_Info, gostatsd.AlertWarning: pb.EventV2_Warning, gostatsd.AlertError: pb.EventV2_Error, gostatsd.AlertSuccess: pb.EventV2_Success}[w0.AlertType]
 				raw, _ := proto.Marshal(msg)
 				rec := httptest.NewRecorder()
-				rt.ServeHTTP(rec, httptest.NewRequest("POST", "/v2/event", bytes.NewReader(raw)))
+				// net/http cancels the request's context as soon as the handler has returned
+				rctx, rcancel := context.WithCancel(ctx)
+				before = time.Now()
+				rt.ServeHTTP(rec, httptest.NewRequest("POST", "/v2/event", bytes.NewReader(raw)).WithContext(rctx))
+				after = time.Now()
+				vsched.Cancel(rcancel)
 				if rec.Code != 202 {
 					problem = fmt.Sprintf("/v2/event answered %d", rec.Code)
 				}
@@ -453,7 +473,7 @@ func enumLine(line string) {
 			got = b.got
 		})
 		bad := func(kind, msg string) {
-			res.Violate(kind, fmt.Sprintf("%s: mode %d (0 udp, 1 http, 2 forwarder) line %q: %s", kind, mode, line, msg), map[string]any{"line": line})
+			res.Violate(kind+" "+[]string{"udp", "http", "udp-on-forwarder", "http-on-forwarder"}[mode], fmt.Sprintf("%s: mode %d (0 udp, 1 http, 2 udp on a forwarder, 3 http on a forwarder) line %q: %s", kind, mode, line, msg), map[string]any{"line": line})
 		}
 		if problem != "" {
 			bad("setup", problem)
@@ -467,7 +487,17 @@ func enumLine(line string) {
 			bad("event-count", fmt.Sprintf("%d events reached the backend", len(got)))
 			continue
 		}
-		if d := sameEvent(got[0], w0); d != "" {
+		want := w0
+		if (mode == 1 || mode == 3) && httpNoDate {
+			// the HTTP receiver runs on the wall clock: "receipt time" is any instant of the request
+			if ts := got[0].DateHappened; ts >= before.Unix() && ts <= after.Unix() {
+				want.DateHappened = ts
+			} else {
+				bad("event-date", fmt.Sprintf("event without a date received over HTTP between %d and %d (unix seconds) was delivered with date %d, want the receipt time", before.Unix(), after.Unix(), ts))
+				continue
+			}
+		}
+		if d := sameEvent(got[0], want); d != "" {
 			bad("event-fields", d)
 		}
 	}
